@@ -56,6 +56,11 @@ func c04Base(class string, seed uint64) *vfScenario {
 		// helper goroutines of multi-chunk transfers running side by side after a fault that order is not ours.
 		sites |= 128
 	}
+	if !multi && rng.IntN(3) == 0 {
+		// a writer whose Close does not make later Writes fail (a glued struct{io.Writer; io.Closer}, a pipe to a
+		// process that has gone): a request registered too late must still be refused, nothing will rescue it
+		sc.Cfg["softclose"] = 1
+	}
 	if !multi && rng.IntN(2) == 0 {
 		sites |= 256 | 16 // the receiver may be held inside broadcastErr, after notifying and before marking the connection closed
 	}
@@ -234,6 +239,7 @@ func c04Exec(r *vfRun) {
 	base := len(srv.s2c.buf)
 	baseWrites := srv.c2s.writes
 	srv.s2c.errWithData = sc.cfg("errwithdata", 0) != 0
+	srv.c2s.softClose = sc.cfg("softclose", 0) != 0
 	// plan the faults (offsets are relative to the end of the setup phase)
 	cutAt, cutKind := -1, 0
 	var cutErr error
